@@ -383,29 +383,11 @@ func (rw *Rewriter) Visit(node sql.Node) (w sql.Visitor, n sql.Node, err error) 
 			rw.modified = true
 		} else if rw.orderedBy == 0 && rw.RewriteRand && strings.EqualFold(n.Name.Name, "randomblob") {
 			if len(n.Args) == 1 {
-				lit, ok := n.Args[0].(*sql.NumberLit)
+				n, ok := blobLength(n.Args[0])
 				if !ok {
 					break
 				}
-				n, err := strconv.Atoi(lit.Value)
-				if err != nil {
-					// SQLite also accepts hexadecimal and floating point literals,
-					// using the integer part of the latter.
-					if h, herr := strconv.ParseInt(lit.Value, 0, 64); herr == nil &&
-						strings.HasPrefix(strings.ToLower(lit.Value), "0x") {
-						n = int(h)
-					} else if f, ferr := strconv.ParseFloat(lit.Value, 64); ferr == nil && f <= maxBlobLength {
-						n = int(f)
-					} else {
-						break
-					}
-				}
-				if n > maxBlobLength {
-					// SQLite refuses a blob this large ("string or blob too big"). Leave the
-					// call alone so that every node rejects it, rather than building the blob here.
-					break
-				}
-				retNode = &sql.BlobLit{Value: fmt.Sprintf(`%X`, random.Bytes(max(n, 1)))}
+				retNode = &sql.BlobLit{Value: fmt.Sprintf(`%X`, random.Bytes(n))}
 				rw.modified = true
 			}
 		}
@@ -419,6 +401,56 @@ func (rw *Rewriter) VisitEnd(node sql.Node) (sql.Node, error) {
 		rw.orderedBy--
 	}
 	return node, nil
+}
+
+// blobLength returns the number of bytes SQLite's randomblob() produces for a literal
+// argument: a number literal, optionally signed. SQLite reads a hexadecimal literal of
+// up to 16 digits as a two's-complement 64-bit integer, uses the integer part of a
+// floating point literal, and returns a single byte for any length below 1. It returns
+// false if the argument is not such a literal, or if SQLite would reject the call: the
+// length exceeds its maximum ("string or blob too big") or the literal is malformed.
+func blobLength(e sql.Expr) (int, bool) {
+	neg := false
+	if u, ok := e.(*sql.UnaryExpr); ok && (u.Op == sql.MINUS || u.Op == sql.PLUS) {
+		neg = u.Op == sql.MINUS
+		e = u.X
+	}
+	lit, ok := e.(*sql.NumberLit)
+	if !ok {
+		return 0, false
+	}
+
+	var n int64
+	if i, err := strconv.ParseInt(lit.Value, 10, 64); err == nil {
+		n = i
+	} else if strings.HasPrefix(strings.ToLower(lit.Value), "0x") {
+		u, err := strconv.ParseUint(lit.Value[2:], 16, 64)
+		if err != nil {
+			return 0, false
+		}
+		n = int64(u)
+		if neg && n == math.MinInt64 {
+			return 0, false
+		}
+	} else if f, err := strconv.ParseFloat(lit.Value, 64); err != nil && !math.IsInf(f, 0) {
+		return 0, false
+	} else if neg || f < 1 {
+		n = 0
+	} else if f <= maxBlobLength {
+		n = int64(f)
+	} else {
+		return 0, false
+	}
+	if neg {
+		n = -n
+	}
+
+	if n > maxBlobLength {
+		// SQLite refuses a blob this large. Leave the call alone so that every node
+		// rejects it, rather than building the blob here.
+		return 0, false
+	}
+	return int(max(n, 1)), true
 }
 
 func isNow(e sql.Expr) bool {
